@@ -6,8 +6,8 @@
    Cache/Bundle.v (bundle builders; revm's per-account callees are Section variables, hence the
    quantified [BA RV present create_revert update_revert ba_size rv_size]), Cache/Conc.v (reader
    and committer as interleaved atomic groups). *)
-From Grevm Require Import Base.Util Cache.Status Cache.Revm Cache.Par Cache.Bundle
-  Cache.SimProofs Cache.ReadProofs Cache.BundleProofs.
+From Grevm Require Import Base.Util Cache.Status Cache.Revm Cache.Par Cache.Bundle Cache.Conc
+  Cache.SimProofs Cache.ReadProofs Cache.BundleProofs Cache.ConcProofs.
 Open Scope N_scope.
 
 (* ------------------------------------------------------------------------------------------
@@ -162,6 +162,113 @@ Example C10_bundle_example :
   NoDup (map fst (add_transitions [] [(1, mkTrans None Destroyed None Loaded [] true); (2, mkTrans None Destroyed None Loaded [] true)])).
 Proof. apply add_transitions_NoDup. constructor. Qed.
 
+(* ------------------------------------------------------------------------------------------
+   cache_coherent (concurrent).  Readers fill the shared cache while the committer mutates it; any
+   number of readers, any interleaving of their atomic groups (Cache/Conc.v).
+
+   Full statement: whenever the committer is between two groups of no wiping commit - in
+   particular when it has finished - every slot answer of the shared cache equals the answer of the
+   cache as written by the committer alone ([c_ghost]), which is the commits applied atomically in
+   order ([C10_ghost_is_committed]).
+
+   It is FALSE for the ordering of the unchanged tree ([original]: storage.remove before the status
+   update, insert-if-absent without re-check): C10_cache_coherent_refuted is finding F1.  It is
+   proved for the repaired ordering of DESIGN section 7 ([repaired]: status update first, removal
+   second, "storage known" re-evaluated under the storage-shard guard).  Each half of the repair
+   alone is insufficient (C10_reorder_alone_refuted, C10_recheck_alone_refuted).
+   Hypotheses: the initial account is well formed (no info => storage known) and, if its storage can
+   become "known" without a wipe (not yet loaded and non-existing; LoadedEmptyEIP161; Loaded
+   without code and nonce), the database holds no storage for it - both follow from a database
+   satisfying [db_wf] for a state loaded from it (C10_flip_zero_of_db_wf). *)
+Theorem C10_cache_coherent :
+  forall (basic : pacct) (dbs : key -> word) acct slots cops keys sched,
+    acct_wf basic ->
+    (flippable acct basic = true -> forall k, dbs k = 0) ->
+    (forall a, acct = Some a -> acct_wf a) ->
+    let s := run repaired basic dbs (init acct slots cops keys) sched in
+    wipe_pending s = false ->
+    forall k, answer dbs (c_acct s) (c_slots s) k = answer dbs (c_acct s) (c_ghost s) k.
+Proof. intros basic dbs acct slots cops keys sched Hb. exact (cache_coherent basic dbs Hb acct slots cops keys sched). Qed.
+
+Theorem C10_ghost_is_committed :
+  forall basic dbs a0 slots cops keys sched,
+    let s := run repaired basic dbs (init (Some a0) slots cops keys) sched in
+    committer_idle s = true ->
+    exists a', c_acct s = Some a' /\ (a', c_ghost s) = fold_left commit_atomic cops (a0, slots).
+Proof. exact ghost_is_committed. Qed.
+
+(* a database without storage for absent / empty / code-less nonce-less accounts *)
+Definition db_wf (d : db) : Prop :=
+  forall a, (match db_basic d a with None => true | Some i => info_is_empty i || has_no_code_and_nonce i end) = true ->
+            forall k, db_storage d a k = 0.
+
+Theorem C10_flip_zero_of_db_wf :
+  forall d a, db_wf d -> acct_wf (load_pair d a) /\
+    (flippable None (load_pair d a) = true -> forall k, db_storage d a k = 0) /\
+    (flippable (Some (load_pair d a)) (load_pair d a) = true -> forall k, db_storage d a k = 0).
+Proof.
+  intros d a Hwf. specialize (Hwf a). unfold load_pair, flippable, flippable_acct, acct_wf in *.
+  destruct (db_basic d a) as [i|]; simpl in *.
+  - destruct (info_is_empty i) eqn:Ee; simpl in *.
+    + repeat split; try discriminate; intros _; now apply Hwf.
+    + repeat split; try discriminate; intros H; apply Hwf; now rewrite H.
+  - repeat split; try reflexivity; intros _; now apply Hwf.
+Qed.
+
+(* the F1 window on the unchanged ordering: V is Loaded with slot 5 = 7 in the database; a reader
+   misses, finds the storage not known, fetches 7; the committer removes V's storage and marks V
+   destroyed; the reader inserts 7.  The committer has finished, the cache serves 7, the committed
+   value is 0. *)
+Definition f1_acct : pacct := (Some (mkInfo 9 1 3 (Some 1)), Loaded).
+Definition f1_dbs : key -> word := fun k => if k =? 5 then 7 else 0.
+Definition f1_sched : list who :=
+  [WReader 0; WReader 0; WReader 0; WCommit; WCommit; WReader 0; WReader 0].
+
+Theorem C10_cache_coherent_refuted :
+  exists basic dbs acct slots cops keys sched,
+    acct_wf basic /\ (flippable acct basic = true -> forall k, dbs k = 0) /\
+    (forall a, acct = Some a -> acct_wf a) /\
+    let s := run original basic dbs (init acct slots cops keys) sched in
+    committer_idle s = true /\ Forall (fun r => match r with RDone _ _ => True | _ => False end) (c_readers s) /\
+    exists k, answer dbs (c_acct s) (c_slots s) k = 7 /\ answer dbs (c_acct s) (c_ghost s) k = 0.
+Proof.
+  exists f1_acct, f1_dbs, (Some f1_acct), fempty, [CDestroy], [5], f1_sched.
+  split; [discriminate|]. split; [discriminate|].
+  split; [intros a Ha; inversion Ha; discriminate|].
+  split; [vm_compute; reflexivity|]. split; [vm_compute; repeat constructor|].
+  exists 5. split; vm_compute; reflexivity.
+Qed.
+
+(* the same window for re-creation and for the EIP-161 clearing of an emptied account *)
+Theorem C10_cache_coherent_refuted_create_touch :
+  forall c, c = CCreate (mkInfo 9 1 4 (Some 2)) [] \/ c = CTouchEmpty ->
+    let s := run original f1_acct f1_dbs (init (Some f1_acct) fempty [c] [5]) f1_sched in
+    committer_idle s = true /\ answer f1_dbs (c_acct s) (c_slots s) 5 = 7 /\ answer f1_dbs (c_acct s) (c_ghost s) 5 = 0.
+Proof. intros c [->| ->]; vm_compute; auto. Qed.
+
+(* status first / removal second, but insert-if-absent without the re-check *)
+Theorem C10_reorder_alone_refuted :
+  let s := run (mkVariant true false) f1_acct f1_dbs (init (Some f1_acct) fempty [CDestroy] [5]) f1_sched in
+  committer_idle s = true /\ answer f1_dbs (c_acct s) (c_slots s) 5 = 7 /\ answer f1_dbs (c_acct s) (c_ghost s) 5 = 0.
+Proof. vm_compute. auto. Qed.
+
+(* re-check under the guard, but removal before the status update *)
+Theorem C10_recheck_alone_refuted :
+  let s := run (mkVariant false true) f1_acct f1_dbs (init (Some f1_acct) fempty [CDestroy] [5])
+             [WReader 0; WReader 0; WReader 0; WCommit; WReader 0; WReader 0; WCommit] in
+  committer_idle s = true /\ answer f1_dbs (c_acct s) (c_slots s) 5 = 7 /\ answer f1_dbs (c_acct s) (c_ghost s) 5 = 0.
+Proof. vm_compute. auto. Qed.
+
+(* the witness schedule under the repaired ordering (and the hypotheses of C10_cache_coherent hold
+   for a non-trivial state: an existing contract with a slot, two readers, destroy then re-create) *)
+Example C10_cache_coherent_example :
+  let s := run repaired f1_acct f1_dbs (init (Some f1_acct) fempty [CDestroy; CCreate (mkInfo 1 1 4 (Some 2)) [(5, 3)]] [5; 5])
+             [WReader 0; WReader 0; WReader 0; WCommit; WReader 1; WCommit; WReader 0; WReader 0; WCommit; WReader 1; WCommit; WCommit; WReader 1] in
+  committer_idle s = true /\ wipe_pending s = false /\
+  answer f1_dbs (c_acct s) (c_slots s) 5 = 3 /\ answer f1_dbs (c_acct s) (c_ghost s) 5 = 3 /\
+  nth_opt (c_readers s) 0 = Some (RDone 5 0).
+Proof. vm_compute. auto. Qed.
+
 Print Assumptions C10_par_simulates_revm.
 Print Assumptions C10_par_simulates_revm_from.
 Print Assumptions C10_bundle_builder_eq.
@@ -169,3 +276,10 @@ Print Assumptions C10_bundle_history_eq.
 Print Assumptions C10_transition_keys_unique.
 Print Assumptions C10_reads_do_not_change_answers.
 Print Assumptions C10_read_sequences.
+Print Assumptions C10_cache_coherent.
+Print Assumptions C10_ghost_is_committed.
+Print Assumptions C10_flip_zero_of_db_wf.
+Print Assumptions C10_cache_coherent_refuted.
+Print Assumptions C10_cache_coherent_refuted_create_touch.
+Print Assumptions C10_reorder_alone_refuted.
+Print Assumptions C10_recheck_alone_refuted.
